@@ -1419,6 +1419,23 @@ pub fn scenarios(prop: &str, tier: &str) -> Vec<Cfg> {
         }
     }
     v.extend(shallow);
+    // Children that let go of their stored waker when they complete and in their destructor (what a
+    // channel receiver or a timer does): the waker is released while the crate is in the middle of
+    // polling, removing or dropping that very child. (Otherwise stored wakers outlive the children
+    // as stale wakers, which is the other legal behaviour.)
+    let all = std::env::var("SX_RELEASE_ALL").is_ok();
+    if matches!(prop, "C03" | "C05" | "C06" | "C18") || thorough || all {
+        let mut dup = vec![];
+        for c in &v {
+            if c.prefill.len() <= 8 || matches!(prop, "C03" | "C06") {
+                let mut d = c.clone();
+                d.release_wakers = true;
+                d.name = format!("{} <children release their wakers>", d.name);
+                dup.push(d);
+            }
+        }
+        v.extend(dup);
+    }
     // every scenario built by a from_iter-style constructor is also run with an inexact size hint
     let mut extra = vec![];
     for c in &v {
